@@ -162,12 +162,17 @@ CONTROLS = [
         "pub struct IsaacRng(\n    #[cfg_attr(feature = \"serde\", serde(deserialize_with = \"read_block\"))] BlockRng<IsaacCore>,\n);\n\n#[cfg(feature = \"serde\")]\nfn read_block<'de, D>(de: D) -> Result<BlockRng<IsaacCore>, D::Error>\nwhere\n    D: serde::Deserializer<'de>,\n{\n    BlockRng::<IsaacCore>::deserialize(de)\n}"), ["C11"]),
     ("fire", "S3f IsaacCore.b deserialize_with clears the low bit", rep(IS, "    a: w32,\n    b: w32,\n    c: w32,\n}\n\n// Custom Debug",
         "    a: w32,\n    #[cfg_attr(feature = \"serde\", serde(deserialize_with = \"read_b\"))]\n    b: w32,\n    c: w32,\n}\n\n#[cfg(feature = \"serde\")]\nfn read_b<'de, D>(de: D) -> Result<w32, D::Error>\nwhere\n    D: serde::Deserializer<'de>,\n{\n    let v = w32::deserialize(de)?;\n    Ok(w(v.0 & !1))\n}\n\n// Custom Debug"), ["C11"]),
-    ("fire", "S3f IsaacCore.mem serialize_with writes 255 elements", rep(IS, "        serde(with = \"super::isaac_array::isaac_array_serde\")\n    )]\n    mem: [w32; RAND_SIZE],",
-        "        serde(serialize_with = \"write_mem\", deserialize_with = \"super::isaac_array::isaac_array_serde::deserialize\")\n    )]\n    mem: [w32; RAND_SIZE],", 1) if False else seq(
+    ("fire", "S3f IsaacCore.mem serialize_with writes 255 elements", seq(
         rep(IS, "        serde(with = \"super::isaac_array::isaac_array_serde\")\n    )]\n    mem: [w32; RAND_SIZE],",
             "        serde(serialize_with = \"write_mem\", deserialize_with = \"super::isaac_array::isaac_array_serde::deserialize\")\n    )]\n    mem: [w32; RAND_SIZE],"),
         rep(IS, "// Custom Debug implementation that does not expose the internal state\nimpl fmt::Debug for IsaacCore {",
             "#[cfg(feature = \"serde\")]\nfn write_mem<S: serde::Serializer>(arr: &[w32; RAND_SIZE], ser: S) -> Result<S::Ok, S::Error> {\n    use serde::ser::SerializeTuple;\n    let mut seq = ser.serialize_tuple(RAND_SIZE)?;\n    for e in arr.iter().skip(1) {\n        seq.serialize_element(e)?;\n    }\n    seq.serialize_element(&arr[0])?;\n    seq.end()\n}\n\n// Custom Debug implementation that does not expose the internal state\nimpl fmt::Debug for IsaacCore {")), ["C11"]),
+    ("silent", "S3 IsaacCore::init takes a key slice and zero-extends it", seq(
+        rep(IS, "    fn init(mut mem: [w32; RAND_SIZE], rounds: u32) -> Self {", "    fn init(key: &[w32], rounds: u32) -> Self {\n        let mut mem = [w(0); RAND_SIZE];\n        for (x, y) in mem.iter_mut().zip(key.iter()) {\n            *x = *y;\n        }"),
+        rep(IS, "Self::init(seed_extended, 2)", "Self::init(&seed_extended, 2)"),
+        rep(IS, "Self::init(key, 1)", "Self::init(&key[..2], 1)"),
+        rep(IS, "        Self::init(seed, 2)\n", "        Self::init(&seed, 2)\n"),
+        rep(IS, "Ok(Self::init(seed, 2))", "Ok(Self::init(&seed, 2))")), ["C03", "C09", "C14"]),
     ("silent", "S2 xoshiro256++ state accessor added", rep(X + "xoshiro256plusplus.rs", "impl Xoshiro256PlusPlus {\n", "impl Xoshiro256PlusPlus {\n    /// Number of state words.\n    pub fn state_words(&self) -> usize {\n        self.s.len()\n    }\n\n"), ["C14", "C19", "C18", "C10"]),
 ]
 
